@@ -173,3 +173,41 @@ def check_saturation(prog, rep, qual='act_two.accuracy'):
                     line=node.lineno, file=mod.path)
     if n == 0:
         rep.error('%s: exponent difference power not found' % qual)
+
+
+def check_stab_unconditional(prog, rep, quals=('act_two.mul_scalar',
+                                              'transformation.orthogonalize')):
+    """Inside a loop over the cores the re-scaling ``core_stab`` is executed at
+    EVERY step when the flag is set: it depends on ``use_stab`` only (a step
+    that is skipped lets the running product over- / underflow before the
+    next re-scaling)."""
+    for qual in quals:
+        fn = prog.func(qual)
+        mod = fn.module
+        n = 0
+        for node in ast.walk(fn.node):
+            if not (isinstance(node, ast.Call) and
+                    (prog.dotted(node.func) or '').endswith('core_stab')):
+                continue
+            # only calls inside a loop
+            cur = getattr(node, '_parent', None)
+            loop = None
+            while cur is not None and cur is not fn.node:
+                if isinstance(cur, (ast.For, ast.While)) and loop is None:
+                    loop = cur
+                cur = getattr(cur, '_parent', None)
+            if loop is None:
+                continue
+            n += 1
+            # tests between the loop head and the call (inside one step)
+            gs = paths.guard_atoms(paths.guards_of(loop, node))
+            extra = [paths.src(mod, t) for t, pol in gs
+                     if not (isinstance(t, ast.Name) and t.id == 'use_stab'
+                             and pol)]
+            rep.add('P-stab-every', qual, 'core_stab call #%d in the core '
+                    'loop depends on use_stab only' % n,
+                    'ok' if not extra else 'violation',
+                    '' if not extra else 'the re-scaling is skipped under %s: '
+                    'the un-scaled step lets the running product over- / '
+                    'underflow for tensors of representable norm' % extra,
+                    line=node.lineno, file=mod.path)
